@@ -823,9 +823,9 @@ func (r *Rng) c16CloExpr(d int, locals []string) *pgNode {
 	}
 	switch r.Pick(7) {
 	case 0, 1:
-		return pgNCall("closure", pgNId("f"), r.c16CloExpr(d-1, locals))
+		return pgNCall("closure", pgNId("f"), r.c16CloArg(d-1, locals))
 	case 2, 3:
-		return pgNCall("closure", pgNId("g"), r.c16CloExpr(d-1, locals), r.c16CloExpr(d-1, locals))
+		return pgNCall("closure", pgNId("g"), r.c16CloArg(d-1, locals), r.c16CloArg(d-1, locals))
 	case 4:
 		return pgNOp("+", r.c16CloExpr(d-1, locals), r.c16CloExpr(d-1, locals))
 	case 5:
@@ -834,14 +834,37 @@ func (r *Rng) c16CloExpr(d int, locals []string) *pgNode {
 	return leaf()
 }
 
+// an argument of a called closure attribute: in about half of the cases it contains a binder - a let directly inside the
+// argument (f(let t=a; t+1): the local lives in the frame of the CALLER, next to the slots reserved for the pending
+// call), an immediately applied closure, or a closure handed to a list method
+func (r *Rng) c16CloArg(d int, locals []string) *pgNode {
+	if d < 0 {
+		d = 0
+	}
+	name := func(p string) string { return fmt.Sprintf("%s%d", p, len(locals)) }
+	switch r.Pick(8) {
+	case 0, 1, 2:
+		t := name("t")
+		return pgNLet(t, r.c16CloExpr(d, locals), r.c16CloExpr(1+r.Pick(2), append(append([]string{}, locals...), t, t)))
+	case 3:
+		y := name("y")
+		return pgNCall("closure", pgNClo([]string{y}, r.c16CloExpr(1+r.Pick(2), append(append([]string{}, locals...), y, y))), r.c16CloExpr(d, locals))
+	case 4:
+		y := name("y")
+		return pgNMethod("method", pgNMethod("method", pgNList(r.c16CloExpr(0, locals), pgNInt(2)), "map",
+			pgNClo([]string{y}, r.c16CloExpr(1+r.Pick(2), append(append([]string{}, locals...), y, y)))), "sum")
+	}
+	return r.c16CloExpr(d, locals)
+}
+
 func (r *Rng) c16CloProgram() *c16CloProg {
 	var t *pgNode
 	call := func(locals ...string) *pgNode {
 		// an expression that certainly calls f or g
 		if r.Chance(0.5) {
-			return pgNCall("closure", pgNId("f"), r.c16CloExpr(1+r.Pick(2), locals))
+			return pgNCall("closure", pgNId("f"), r.c16CloArg(1+r.Pick(2), locals))
 		}
-		return pgNCall("closure", pgNId("g"), r.c16CloExpr(1+r.Pick(2), locals), r.c16CloExpr(r.Pick(2), locals))
+		return pgNCall("closure", pgNId("g"), r.c16CloArg(1+r.Pick(2), locals), r.c16CloArg(r.Pick(2), locals))
 	}
 	sum := func(l *pgNode, x string, body *pgNode) *pgNode {
 		return pgNMethod("method", pgNMethod("method", l, "map", pgNClo([]string{x}, body)), "sum")
@@ -901,6 +924,9 @@ func (run *c16Run) runCloCase(c *c16CloProg, id int) {
 	sum.Evaluations++
 	sig := "closure attribute called; " + c16Signature(q1.uses)
 	sum.Count("closure_attribute_programs", "map representation "+c.Repr)
+	if strings.Contains(text, "(let ") || strings.Contains(text, ", let ") {
+		sum.Count("closure_attribute_programs", "a let directly inside an argument of the called attribute")
+	}
 	sum.Count("outcome_withmap_optimizer_off", wm.off.Kind)
 	deep := false
 	for _, u := range q1.uses {
@@ -1007,12 +1033,12 @@ func cmdC16(seed int64, tier, outDir string) {
 	c01Setup()
 	c16DumpSetup()
 	c16On, c16Off = c01FgOn, c01FgOff
-	n, maxNodes, nHist, nClo := 180, 36, 28, 60
+	n, maxNodes, nHist, nClo := 180, 36, 30, 40
 	if tier == "thorough" {
 		n, maxNodes, nHist, nClo = 30000, 100, 3000, 5000
 	}
 	sum := NewSummary("C16", seed, tier)
-	sum.Rule = "programs of the C01 generator (operators, let, func with recursion, closures up to 3+ levels, if, switch, try, list/map literals, methods, static functions) whose arguments all become attributes of one map argument; attribute uses at every nesting level (top level, inside 1..3+ closures, inside func bodies, inside lets within call arguments); attribute names that collide with constants (pi), static functions (sqr) and local bindings; about a third of the programs also MENTION THE MAP ARGUMENT BY NAME next to the implicit uses, at every nesting level (mq.x, mq.get(\"x\"), let k = mq; k.x, the map returned from a closure, passed to a function, \"x\" ~ mq, mq.size()) - qualification leaves those as they are; 3 maps per program, each in a representation of harness/tree.go (listmap, real, put, merge, replace, eval, map-method, funcmap, funcmap-absent, tomap); GenerateWithMap(exp) against Generate(exp with every free attribute written (m.x)), optimizer on and off; plus programs whose attributes hold CLOSURES THAT ARE CALLED (at top level, inside closures, in a recursive func, in a let value) on list/real/put/merge maps, struct wrappers (NewToMap) with closure-valued fields and function maps with all, none or only some keys declared - GenerateWithMap(exp) against Generate with the attributes written (m.x) and against Generate with the attributes written m.x without parentheses (the called attribute as m.f(...)); plus HISTORIES of one generator object (4..12 operations: AddConstant with names of attributes and locals, GenerateWithMap with one or two alternating map names): every GenerateWithMap is checked on the generator of the history against Generate of the text qualified relative to the constants registered so far, the parser model and the reference semantics with exactly these constants, and functions generated earlier are re-evaluated after every later AddConstant. Distinct non-trivial: program texts with >= 1 attribute use inside a closure or func body that generate without error"
+	sum.Rule = "programs of the C01 generator (operators, let, func with recursion, closures up to 3+ levels, if, switch, try, list/map literals, methods, static functions) whose arguments all become attributes of one map argument; attribute uses at every nesting level (top level, inside 1..3+ closures, inside func bodies, inside lets within call arguments); attribute names that collide with constants (pi), static functions (sqr) and local bindings; about a third of the programs also MENTION THE MAP ARGUMENT BY NAME next to the implicit uses, at every nesting level (mq.x, mq.get(\"x\"), let k = mq; k.x, the map returned from a closure, passed to a function, \"x\" ~ mq, mq.size()) - qualification leaves those as they are; 3 maps per program, each in a representation of harness/tree.go (listmap, real, put, merge, replace, eval, map-method, funcmap, funcmap-absent, tomap); GenerateWithMap(exp) against Generate(exp with every free attribute written (m.x)), optimizer on and off; plus programs whose attributes hold CLOSURES THAT ARE CALLED (at top level, inside closures, in a recursive func, in a let value; the arguments of these calls contain binders: a let directly inside an argument, nested calls, immediately applied closures, closures handed to list methods) on list/real/put/merge maps, struct wrappers (NewToMap) with closure-valued fields and function maps with all, none or only some keys declared - GenerateWithMap(exp) against Generate with the attributes written (m.x) and against Generate with the attributes written m.x without parentheses (the called attribute as m.f(...)); plus HISTORIES of one generator object (4..12 operations: AddConstant with names of attributes and locals, GenerateWithMap with one or two alternating map names): every GenerateWithMap is checked on the generator of the history against Generate of the text qualified relative to the constants registered so far, the parser model and the reference semantics with exactly these constants, and functions generated earlier are re-evaluated after every later AddConstant. Distinct non-trivial: program texts with >= 1 attribute use inside a closure or func body that generate without error"
 	vops, vun, _, _ := c16Dump.GetParser().VerifParseConfig()
 	var funcs []string
 	for f := range c01Statics {
@@ -1060,7 +1086,24 @@ func cmdC16(seed int64, tier, outDir string) {
 	}
 	// closure attributes that are called, in every representation incl. function maps without declared keys
 	fa := func(x *pgNode) *pgNode { return pgNCall("closure", pgNId("f"), x) }
+	ga := func(x, y *pgNode) *pgNode { return pgNCall("closure", pgNId("g"), x, y) }
+	idn, op := pgNId, pgNOp
 	for _, t := range []*pgNode{
+		// binders inside the arguments of a called closure attribute (the local of the let lives in the caller's frame):
+		// f(let t=a; t+1)   g(b, let t=a; t*2)   g(let s=b; s+1, let t=a; t+b)   [1,2].map(x->g(x, let t=a; t+x)).sum()
+		// func h(x) g(x, let t=a; t+x); h(b)   f(f(let t=a; t+1))   g(f(let t=b; t+a), let u=b; u*2)
+		// f((y->y+a)(let t=b; t+1))   g(a, [a,2].map(y->f(let t=y; t+b)).sum())
+		fa(pgNLet("t", idn("a"), op("+", idn("t"), pgNInt(1)))),
+		ga(idn("b"), pgNLet("t", idn("a"), op("*", idn("t"), pgNInt(2)))),
+		ga(pgNLet("s", idn("b"), op("+", idn("s"), pgNInt(1))), pgNLet("t", idn("a"), op("+", idn("t"), idn("b")))),
+		pgNMethod("method", pgNMethod("method", pgNList(pgNInt(1), pgNInt(2)), "map",
+			pgNClo([]string{"x"}, ga(idn("x"), pgNLet("t", idn("a"), op("+", idn("t"), idn("x")))))), "sum"),
+		pgNFunc("h", []string{"x"}, ga(idn("x"), pgNLet("t", idn("a"), op("+", idn("t"), idn("x")))), pgNCall("closure", idn("h"), idn("b"))),
+		fa(fa(pgNLet("t", idn("a"), op("+", idn("t"), pgNInt(1))))),
+		ga(fa(pgNLet("t", idn("b"), op("+", idn("t"), idn("a")))), pgNLet("u", idn("b"), op("*", idn("u"), pgNInt(2)))),
+		fa(pgNCall("closure", pgNClo([]string{"y"}, op("+", idn("y"), idn("a"))), pgNLet("t", idn("b"), op("+", idn("t"), pgNInt(1))))),
+		ga(idn("a"), pgNMethod("method", pgNMethod("method", pgNList(idn("a"), pgNInt(2)), "map",
+			pgNClo([]string{"y"}, fa(pgNLet("t", idn("y"), op("+", idn("t"), idn("b")))))), "sum")),
 		fa(pgNId("a")), pgNOp("+", pgNCall("closure", pgNId("g"), pgNId("a"), pgNId("b")), pgNId("b")),
 		fa(pgNCall("closure", pgNId("g"), pgNId("a"), fa(pgNId("b")))),
 		pgNMethod("method", pgNMethod("method", pgNList(pgNInt(1), pgNInt(2)), "map", pgNClo([]string{"x"}, pgNOp("+", fa(pgNId("x")), pgNId("a")))), "sum"),
@@ -1076,9 +1119,11 @@ func cmdC16(seed int64, tier, outDir string) {
 	for i := 0; i < nHist*optBoost; i++ {
 		run.runHistory(r.c16GenHistory(maxNodes), &id)
 	}
+	// the closure-attribute family draws from a generator of its own: the history and program streams do not depend on it
+	rc := NewRng(seed + 1600)
 	for i := 0; i < nClo*optBoost; i++ {
 		id++
-		run.runCloCase(r.c16CloProgram(), id)
+		run.runCloCase(rc.c16CloProgram(), id)
 	}
 	for i := 0; i < n; i++ {
 		id++
